@@ -27,6 +27,10 @@ CHECKS = {
         text="Kernels as exact bit-vector equivalences against an independent transcription of the RFC (ChaCha20 quarter/double round, 20-round block function, serialisation, keystream XOR for all keys, nonces, counters and plaintexts of the enumerated lengths; Poly1305 with its two field operations abstracted); modes and derivations with the kernels/hashes as uninterpreted functions: CBC and CTR incl. state carried across calls, AES-GCM, AES-CCM/CCM-8, ChaCha20-Poly1305 seal/open (open inverts seal and accepts exactly the right tag), 3DES-EDE-CBC keying, P_hash/PRF/PRF_SSL, HKDF-Expand(-Label)/Derive-Secret, and calc_key's PRF/seed/transcript choice per version, suite and label.",
         note="SHA/MD5 are the C library (uninterpreted); AES/DES round functions are abstracted as bijections (rijndael.py/Des kernels not yet encoded); GHASH multiplication is abstracted in the GCM mode check; HMAC is the standard library's in this environment (the fallback class in tlshmac.py is never defined); lengths as enumerated.",
         design="5/C09", technique=T),
+    "C11": dict(
+        text="RSAKey.decrypt is executed with the private-key operation returning an arbitrary symbolic encoded message and with hashing/HMAC as uninterpreted functions; z3 proves for every EM and ciphertext of the enumerated modulus sizes that it never raises, consults no randomness, performs exactly one private operation, returns the real message iff the PKCS#1 v1.5 padding is valid and otherwise the synthetic message whose length is chosen from the ciphertext-keyed PRF alone (independent of the defect class), and None exactly for publicly invalid ciphertexts. RSAKeyExchange.processClientKeyExchange is proved to return 48 bytes on every path with identical RNG use, the real premaster iff length and version bytes are right.",
+        note="Modulus sizes 16/32/48 bytes (quick) up to 64 (thorough); SHA-256/HMAC uninterpreted; timing/cache side channels are outside (the code itself documents CPython is not constant time); the wire behaviour of the whole server flow (no early alert) is not yet driven.",
+        design="5/C11", technique=T),
     "C12": dict(
         text="For every enumerated (version, MAC, body length, block size) the real ct_check_cbc_mac_and_pad is executed on a fully symbolic body, sequence number and content type and z3 proves it equivalent to the plain specification (MAC modelled as an uninterpreted function of its whole input); the ct_* helpers are proved for all 32-bit arguments. Bounded by the enumerated lengths (quick: 5 lengths per MAC + two window-edge lengths; thorough: every n <= 80 and window edges to 400).",
         note="HMAC/SSLv3 MAC abstracted as uninterpreted function per input length; lengths outside the enumerated shapes are not covered; z3 and the symx engine are trusted (engine validated by lib/selfcheck.py and native replay of every counterexample).",
